@@ -13,6 +13,7 @@
   code does and the statements below say so explicitly.  All statements hold for every tie rule.
 -/
 import QKV.Lemmas.FixedQ
+import QKV.Lemmas.FixedQObj
 import QKV.Lemmas.F32
 namespace QKV.Props.C02
 open QKV
@@ -598,6 +599,149 @@ theorem C02_stale_mode_counterexample (σ : ℚ → ℚ) :
   have h1 : qsigmoidP .even 2 false (hardSigmoid (-99/50)) = 0 := by decide +kernel
   have h2 : qsigmoidP .even 2 false (smoothSigmoid (-99/50)) = 1/4 := by decide +kernel
   exact ⟨h1, h2⟩
+
+/-! ## Strengthening round 2: histories on ONE object (`QKV.Model.FixedQObj`)
+
+  The nearest-code projection is the one of the configuration the object has WHEN IT IS CALLED, whatever
+  it went through before (calls, reporter reads, attribute assignments, `_set_trainable_parameter()`,
+  being handed to layers). -/
+
+/-- quantized_linear after ANY history: in range the output is within half a step (of the scale in force)
+    of the input; the range is the one of the CURRENT `symmetric` -/
+theorem C02_hist_linear_nearest (t : Tie) (s0 : LinSt) (h : List (HStep LinEv Ask)) (x p : ℚ)
+    (hsf : ((linSpec t).final s0 h).cfg.signFn = false) (hq : 0 < ((linSpec t).final s0 h).effective.qs)
+    (h1 : (((linSpec t).final s0 h).cfg.lo : ℚ) * ((linSpec t).final s0 h).effective.qs ≤ x)
+    (h2 : x ≤ (((linSpec t).final s0 h).cfg.hi : ℚ) * ((linSpec t).final s0 h).effective.qs) :
+    ∃ y : ℚ, (linSpec t).answer ((linSpec t).final s0 h) (.call x p) = .val y ∧
+      |y - x| ≤ ((linSpec t).final s0 h).effective.qs / 2 :=
+  ⟨_, rfl, C02_linear_nearest t _ (by rw [LinSt.effective_signFn]; exact hsf) hq x h1 h2⟩
+
+/-- … below the range it is the smallest code of the CURRENT format, above it the largest -/
+theorem C02_hist_linear_saturate (t : Tie) (s0 : LinSt) (h : List (HStep LinEv Ask)) (x p : ℚ)
+    (hsf : ((linSpec t).final s0 h).cfg.signFn = false) (hq : 0 < ((linSpec t).final s0 h).effective.qs) :
+    (x ≤ (((linSpec t).final s0 h).cfg.lo : ℚ) * ((linSpec t).final s0 h).effective.qs →
+      (linSpec t).answer ((linSpec t).final s0 h) (.call x p) =
+        .val ((((linSpec t).final s0 h).cfg.lo : ℚ) * ((linSpec t).final s0 h).effective.qs)) ∧
+    ((((linSpec t).final s0 h).cfg.hi : ℚ) * ((linSpec t).final s0 h).effective.qs ≤ x →
+      (linSpec t).answer ((linSpec t).final s0 h) (.call x p) =
+        .val ((((linSpec t).final s0 h).cfg.hi : ℚ) * ((linSpec t).final s0 h).effective.qs)) := by
+  have hs' : ((linSpec t).final s0 h).effective.signFn = false := by rw [LinSt.effective_signFn]; exact hsf
+  constructor
+  · intro h1
+    show Ans.val _ = _
+    rw [C02_linear_saturate_lo t _ hs' hq x h1]; rfl
+  · intro h2
+    show Ans.val _ = _
+    rw [C02_linear_saturate_hi t _ hs' hq x h2]; rfl
+
+/-- … and the calls made in one state are monotone in the input -/
+theorem C02_hist_linear_mono (t : Tie) (s0 : LinSt) (h : List (HStep LinEv Ask)) {x x' : ℚ} (p p' : ℚ)
+    (hsf : ((linSpec t).final s0 h).cfg.signFn = false) (hq : 0 < ((linSpec t).final s0 h).effective.qs)
+    (hx : x ≤ x') :
+    ∃ y y' : ℚ, (linSpec t).answer ((linSpec t).final s0 h) (.call x p) = .val y ∧
+      (linSpec t).answer ((linSpec t).final s0 h) (.call x' p') = .val y' ∧ y ≤ y' :=
+  ⟨_, _, rfl, rfl, C02_linear_mono t _ (by rw [LinSt.effective_signFn]; exact hsf) hq hx⟩
+
+/-- the statement seed C02-5 breaks: an `alpha=None` quantized_linear that was USED (any calls / reporter
+    reads) and then handed to a layer as kernel quantizer (`_set_trainable_parameter`) saturates at the end
+    code of the SYMMETRIC format, `-(2^ub - 1)` steps of the scale the data dictates — not at `-2^ub` -/
+theorem C02_hist_linear_trainable_end_code (t : Tie) (c : LinCfg) (ha : c.alpha = none) (hkn : c.keepNeg = true)
+    (hb : c.signFn = false) (pre : List (HStep LinEv Ask)) (hpre : ObjSpec.events pre = []) (a x p : ℚ)
+    (hapos : 0 < a) (hx : x ≤ -((twoPow c.ub : ℚ) - 1) * (a * pow2 (c.integer - c.ub))) :
+    (linSpec t).answer ((linSpec t).final (LinSt.construct c false) (pre ++ [.ev .trainable, .ev (.rescale a)]))
+      (.call x p) = .val (-((twoPow c.ub : ℚ) - 1) * (a * pow2 (c.integer - c.ub))) := by
+  have hfin : (linSpec t).final (LinSt.construct c false) (pre ++ [.ev .trainable, .ev (.rescale a)]) =
+      { cfg := { c with symmetric := true }, auto := true, stored := some a } := by
+    rw [ObjSpec.final_append, ObjSpec.final_eq_foldl _ _ pre, hpre]
+    simp [ObjSpec.final, linSpec, LinSt.apply, LinSt.construct, ha]
+  rw [hfin]
+  set e := ({ cfg := { c with symmetric := true }, auto := true, stored := some a } : LinSt).effective with he
+  have hsf : e.signFn = false := hb
+  have hqs : e.qs = a * pow2 (c.integer - c.ub) := rfl
+  have hq : 0 < e.qs := by rw [hqs]; exact mul_pos hapos (pow2_pos _)
+  have hlo : (e.lo : ℚ) = -((twoPow c.ub : ℚ) - 1) := by
+    have e' : e.lo = (if c.keepNeg then -twoPow c.ub + 1 else 0) := rfl
+    rw [e', hkn]; simp only [if_true]; push_cast; ring
+  show Ans.val (qlinear t e x) = _
+  rw [C02_linear_saturate_lo t e hsf hq x (by rw [hlo, hqs]; exact hx), hlo, hqs]
+
+/-- quantized_bits under a data-dependent scale `s`: inside the symmetric range the output is within half
+    a step `s · 2^integer` of the input -/
+theorem C02_bitsAuto_nearest (c : BitsCfg) (s x : ℚ) (hs : 0 < s)
+    (hx : |x| ≤ ((tp (c.bits - 1) : ℚ) - 1) * (s * pow2 c.integer)) :
+    |qbitsAuto c s x - x| ≤ s * pow2 c.integer / 2 := by
+  have hp := pow2_pos c.integer
+  have hst : 0 < s * pow2 c.integer := mul_pos hs hp
+  unfold qbitsAuto
+  simp only []
+  have htp : (twoPow (c.bits - 1) : ℤ) = tp (c.bits - 1) := rfl
+  -- |x / 2^i| / s = |x| / (s 2^i) =: a ≥ 0, v = floor(a + 1/2)
+  have habs : (if x / pow2 c.integer < 0 then -(x / pow2 c.integer) else x / pow2 c.integer) / s
+      = |x| / (s * pow2 c.integer) := by
+    rcases lt_or_ge x 0 with hneg | hpos
+    · rw [if_pos (div_neg_of_neg_of_pos hneg hp), abs_of_neg hneg]; field_simp
+    · rw [if_neg (not_lt.mpr (div_nonneg hpos hp.le)), abs_of_nonneg hpos]; field_simp
+  rw [habs]
+  set a := |x| / (s * pow2 c.integer) with ha
+  have ha0 : 0 ≤ a := div_nonneg (abs_nonneg x) hst.le
+  have hale : a ≤ (tp (c.bits - 1) : ℚ) - 1 := by rw [ha, div_le_iff₀ hst]; exact hx
+  obtain ⟨hf1, hf2⟩ := floor_spec (a + 1 / 2)
+  set v : ℤ := (a + 1 / 2).floor with hv
+  -- in range the clip does not bite: v ≤ half
+  have hvle : v ≤ tp (c.bits - 1) - 1 := by
+    have : ((v : ℤ) : ℚ) < ((tp (c.bits - 1) - 1 : ℤ) : ℚ) + 1 := by push_cast; linarith
+    have : v < tp (c.bits - 1) - 1 + 1 := by exact_mod_cast this
+    omega
+  have hmin : (if v < twoPow (c.bits - 1) - 1 then v else twoPow (c.bits - 1) - 1) = v := by
+    rw [htp]; split
+    · rfl
+    · omega
+  rw [hmin]
+  have hva : |(v : ℚ) - a| ≤ 1 / 2 := by rw [abs_le]; constructor <;> linarith
+  have hxa : |x| = a * (s * pow2 c.integer) := by rw [ha]; field_simp
+  rcases lt_trichotomy x 0 with hneg | hzero | hpos
+  · rw [if_pos hneg]
+    have hx' : x = -(a * (s * pow2 c.integer)) := by rw [← hxa, abs_of_neg hneg]; ring
+    have : s * (pow2 c.integer * (((-1 * v : ℤ)) : ℚ)) - x = -(((v : ℚ) - a) * (s * pow2 c.integer)) := by
+      rw [hx']; push_cast; ring
+    rw [this, abs_neg, abs_mul, abs_of_pos hst]
+    calc |(v : ℚ) - a| * (s * pow2 c.integer) ≤ 1 / 2 * (s * pow2 c.integer) :=
+          mul_le_mul_of_nonneg_right hva hst.le
+      _ = s * pow2 c.integer / 2 := by ring
+  · subst hzero
+    have ha0' : a = 0 := by rw [ha]; simp
+    simp only [lt_irrefl, if_false]
+    simp
+    positivity
+  · rw [if_neg (not_lt.mpr hpos.le), if_pos hpos]
+    have hx' : x = a * (s * pow2 c.integer) := by rw [← hxa, abs_of_pos hpos]
+    have : s * (pow2 c.integer * (((1 * v : ℤ)) : ℚ)) - x = ((v : ℚ) - a) * (s * pow2 c.integer) := by
+      rw [hx']; push_cast; ring
+    rw [this, abs_mul, abs_of_pos hst]
+    calc |(v : ℚ) - a| * (s * pow2 c.integer) ≤ 1 / 2 * (s * pow2 c.integer) :=
+          mul_le_mul_of_nonneg_right hva hst.le
+      _ = s * pow2 c.integer / 2 := by ring
+
+/-- quantized_bits after ANY history with a constant (or no) scale: nearest code of the CURRENT format -/
+theorem C02_hist_bits_nearest (t : Tie) (s0 : BitsSt) (h : List (HStep BitsEv Ask)) (x p : ℚ)
+    (hna : ((bitsSpec t).final s0 h).auto = false) (hub : 0 < ((bitsSpec t).final s0 h).cfg.ub)
+    (hg : ((bitsSpec t).final s0 h).cfg.gain = 1)
+    (h1 : (((bitsSpec t).final s0 h).cfg.lo : ℚ) * ((bitsSpec t).final s0 h).cfg.step ≤ x)
+    (h2 : x ≤ (((bitsSpec t).final s0 h).cfg.hi : ℚ) * ((bitsSpec t).final s0 h).cfg.step) :
+    ∃ y : ℚ, (bitsSpec t).answer ((bitsSpec t).final s0 h) (.call x p) = .val y ∧
+      |y - x| ≤ ((bitsSpec t).final s0 h).cfg.step / 2 := by
+  set s := (bitsSpec t).final s0 h
+  refine ⟨qbits t s.cfg x, ?_, C02_bits_nearest t _ hub hg x h1 h2⟩
+  simp only [bitsSpec, BitsSt.answer, hna, Bool.false_eq_true, if_false]
+
+/-- quantized_relu after ANY history (`use_sigmoid = 0`): monotone, for the CURRENT options -/
+theorem C02_hist_relu_mono (t : Tie) (s0 : ReluSt) (h : List (HStep ReluEv Ask)) {x x' : ℚ} (p p' : ℚ)
+    (hus : ((reluSpec t).final s0 h).useSigmoid = false) (hx : x ≤ x') :
+    ∃ y y' : ℚ, (reluSpec t).answer ((reluSpec t).final s0 h) (.call x p) = .val y ∧
+      (reluSpec t).answer ((reluSpec t).final s0 h) (.call x' p') = .val y' ∧ y ≤ y' := by
+  set s := (reluSpec t).final s0 h
+  refine ⟨qreluU t s.cfg x, qreluU t s.cfg x', ?_, ?_, C02_reluU_mono t _ hx⟩ <;>
+  simp only [reluSpec, ReluSt.answer, hus, Bool.false_eq_true, if_false]
 
 /-! ## non-vacuity -/
 
